@@ -8,6 +8,7 @@ import (
 	"io"
 	"os"
 	"runtime"
+	"sort"
 	"strconv"
 )
 
@@ -118,7 +119,16 @@ func NewZlispWithFuncs(funcs map[string]ZlispUserFunction) *Zlisp {
 	env.AddGlobal("null", SexpNull)
 	env.AddGlobal("nil", SexpNull)
 
-	for key, function := range funcs {
+	// intern the builtins in sorted order, so that their symbol numbers
+	// (visible through symnum and the ordering of symbols) do not depend
+	// on Go's randomized map iteration order.
+	keys := make([]string, 0, len(funcs))
+	for key := range funcs {
+		keys = append(keys, key)
+	}
+	sort.Strings(keys)
+	for _, key := range keys {
+		function := funcs[key]
 		sym := env.MakeSymbol(key)
 		env.builtins[sym.number] = MakeUserFunction(key, function)
 		env.AddFunction(key, function)
